@@ -108,7 +108,7 @@ func (c *Catalog) tagsFromTagsDirective(d *directive.Directive) ([]*Tag, *jerr.J
 		seen[tn] = struct{}{}
 
 		t, ok := c.Tags.Get(tn)
-		if !ok {
+		if !ok || t.auto {
 			return nil, d.KeywordError(fmt.Sprintf("%s %q", jerr.TagNotFound, tn))
 		}
 
